@@ -601,9 +601,11 @@ fn c05(args: &Args, rep: &mut Report, w: &Watch) {
             c05_one(rep, w, &Case { s: a, t: b, defs: vec![], t_first: r.chance(1, 2) }, cap, "sample-3x3");
         }
     }
-    rep.count("exhaustive_size1_types", s1.len() as u64);
-    rep.count("exhaustive_size2_types", s2.len() as u64);
-    rep.count("exhaustive_size3_types", s3.len() as u64);
+    if args.shard == 0 {
+        rep.count("exhaustive_size1_types", s1.len() as u64);
+        rep.count("exhaustive_size2_types", s2.len() as u64);
+        rep.count("exhaustive_size3_types", s3.len() as u64);
+    }
 
     // (ii) random pairs with named recursive definitions, (iii) near pairs, relational pairs
     let n = rep.share(120_000, 4_000_000);
@@ -731,8 +733,10 @@ fn c05(args: &Args, rep: &mut Report, w: &Watch) {
             rep.sample(json!({"S": tgen::show(&c.s), "T": tgen::show(&c.t), "definitions": c.defs.iter().map(|d| format!("{} = {}", tgen::show(&Runtype::ref_(d.name.clone())), tgen::show(&d.schema))).collect::<Vec<_>>(), "stream": stream}));
         }
     }
-    for e in exhaustive_done {
-        rep.count(&format!("exhaustive:{}", e), 1);
+    if args.shard == 0 {
+        for e in exhaustive_done {
+            rep.count(&format!("exhaustive-subrun-completed:{}", e), 1);
+        }
     }
 }
 
